@@ -786,6 +786,9 @@ def _spine_positions(owner: ast.AST, field: str):
                 return
         elif isinstance(cur, (ast.Tuple, ast.List)) and cur.elts:
             owner, field, idx = cur, "elts", 0
+        elif isinstance(cur, (ast.ListComp, ast.SetComp, ast.GeneratorExp, ast.DictComp)) and cur.generators and not cur.generators[0].is_async:
+            # the iterable of the first `for` is evaluated first (for a generator expression: when the expression is created)
+            owner, field, idx = cur.generators[0], "iter", None
         else:
             return
         e = getattr(owner, field)
